@@ -574,6 +574,16 @@ Definition apply_rw_items (r : rewrites) (orig_auth : list N) (l : list item) : 
   else filter (fun i => match i with IH h => negb (rw_drops r h) | ICookies => true end) l ++
        map IH (rw_inserts r orig_auth).
 
+(** [Router::connect] runs once per backend connection ATTEMPT on the same
+    request (a refused / timed-out backend is retried on another one); the
+    frontend's policy is applied on the first attempt only
+    ([apply_request_policy = first_attempt]). *)
+Fixpoint after_attempts (n : nat) (first : bool) (r : rewrites) (orig_auth : list N) (hs : list header) : list header :=
+  match n with
+  | O => hs
+  | S k => after_attempts k false r orig_auth (if first then apply_rw r orig_auth hs else hs)
+  end.
+
 (* ------------------------------------------------------------------ *)
 (** * [command/src/state.rs] [validate_sozu_id_header]: the reserved names *)
 
